@@ -370,6 +370,24 @@ def expand(module_name, tree):
                         new = _expand(fn, kind, st.value, 'assign', st.targets)
                     elif isinstance(st, ast.Return) and st.value is not None and _is_call_of(st.value, fn, kind):
                         new = _expand(fn, kind, st.value, 'return')
+                    elif isinstance(st, ast.If) and not single and (_is_call_of(st.test, fn, kind) or (
+                            isinstance(st.test, ast.UnaryOp) and isinstance(st.test.op, ast.Not) and _is_call_of(st.test.operand, fn, kind))):
+                        # `if [not] H(...)`: the helper's result goes through a fresh flag
+                        call = st.test if isinstance(st.test, ast.Call) else st.test.operand
+                        flag = '_%s_result' % fn.name.strip('_')
+                        new = _expand(fn, kind, call, 'assign', [ast.Name(id=flag, ctx=ast.Store())])
+                        if new is not None and not any(s is st for s in ast.walk(fn)):
+                            ref_ = ast.copy_location(ast.Name(id=flag, ctx=ast.Load()), call)
+                            if isinstance(st.test, ast.Call):
+                                st.test = ref_
+                            else:
+                                st.test.operand = ref_
+                            lst[i:i] = new
+                            i += len(new) + 1
+                            n += 1
+                            changed = True
+                            continue
+                        new = None
                     if new is not None and not any(s is st for s in ast.walk(fn)):
                         lst[i:i + 1] = new
                         i += len(new)
